@@ -2,19 +2,24 @@
 C12 — adapter warnings on POST /load and POST /adapt (caddyconfig/load.go).
 
 `adaptByContentType` hands back the adapter's warnings. `handleAdapt` puts them into the answer
-(`{"warnings": […], "result": …}`). `handleLoad` WRITES them to the response body as soon as the
-adaptation has succeeded — before `caddy.Load` runs. The first `Write` commits the status line to
-200, so whatever `caddy.Load` answers afterwards, the client reads "200": an error is only
-appended to the body as a second JSON value (`handleError`'s `WriteHeader` comes too late).
+(`{"warnings": […], "result": …}`). `handleLoad` keeps them until `caddy.Load` has succeeded and only then writes them to the
+response body (/repo bbbf7b6). Before that repair it wrote them as soon as the adaptation had
+succeeded — before `caddy.Load` ran: the first `Write` committed the status line to 200, so a
+rejected load was answered "200" with the error appended as a second JSON value
+(`loadStatusSeenOld`, kept for `rejected_load_is_reported_old_code_fails`).
 -/
 import CaddyModel.C12.Model
 
 namespace CaddyModel.C12
 
-/-- warnings reach the response: the request went through a registered adapter, the adaptation
-    succeeded, and the adapter had something to say about the body (`warns`) -/
-def warnsWritten (env : Env) (warns : Body → Bool) (r : Req) : Bool :=
+/-- the adapter has warnings for this request: it went through a registered adapter, the
+    adaptation succeeded, and the adapter had something to say about the body (`warns`) -/
+def adapterWarned (env : Env) (warns : Body → Bool) (r : Req) : Bool :=
   r.method == .post && r.ct == .adapter && (env.adapt r.body).isSome && warns r.body
+
+/-- `handleLoad`: warnings reach the response only once `caddy.Load` has succeeded -/
+def warnsWritten (env : Env) (warns : Body → Bool) (r : Req) (s : State) : Bool :=
+  adapterWarned env warns r && (handleLoad env r s).2 == .okWrite
 
 def respStatus : Resp → Nat
   | .fail f => statusOf f
@@ -22,9 +27,14 @@ def respStatus : Resp → Nat
   | .ambiguous => 0
   | _ => 200
 
-/-- the status line the client of `POST /load` reads -/
-def loadStatusSeen (env : Env) (warns : Body → Bool) (r : Req) (s : State) : Nat :=
-  if warnsWritten env warns r then 200 else respStatus (handleLoad env r s).2
+/-- the status line the client of `POST /load` reads: nothing is written before the outcome of
+    the load is known, so it is the status of the outcome -/
+def loadStatusSeen (env : Env) (r : Req) (s : State) : Nat := respStatus (handleLoad env r s).2
+
+/-- the code before /repo bbbf7b6: warnings were written (and with them the status line 200)
+    before `caddy.Load` ran -/
+def loadStatusSeenOld (env : Env) (warns : Body → Bool) (r : Req) (s : State) : Nat :=
+  if adapterWarned env warns r then 200 else respStatus (handleLoad env r s).2
 
 theorem statusOf_ne_200 (f : Fail) : statusOf f ≠ 200 := by
   cases f with
